@@ -49,14 +49,14 @@ def region_horizontal_mode(msg, name):
     return F.tc_of(bits) == 29 and F.field(me, 6, 7) != 1 and F.field(me, 26, 27) != F.field(me, 38, 39)
 
 
-@harness(("C13", "C14", "C17"), inputs={"msg": HexStr(28), "name": Choice(*N61)},
+@harness(("C13", "C14"), inputs={"msg": HexStr(28), "name": Choice(*N61)},
          functions=[D61 + n for n in N61], body_of=[D61 + n for n in N61])
 def tc28_field_body(msg, name):
     assert outcome(getattr(B61, name), msg) == outcome(getattr(adsb_spec, name), msg), \
         "TC28 field == DO-260B bit range; RuntimeError for other type codes / ACAS RA subtype"
 
 
-@harness(("C13", "C14", "C17"), inputs={"msg": HexStr(28), "name": Choice(*N62)},
+@harness(("C13", "C14"), inputs={"msg": HexStr(28), "name": Choice(*N62)},
          functions=[D62 + n for n in N62], body_of=[D62 + n for n in N62], regions=["region_horizontal_mode"])
 def tc29_field_body(msg, name):
     assert outcome_close(outcome(getattr(B62, name), msg), outcome(getattr(adsb_spec, name), msg)), \
@@ -75,14 +75,14 @@ def target_angle_body(msg):
             "target_angle == (bits 28-36 | None, source from bits 26-27)"
 
 
-@harness(("C13", "C14", "C17"), inputs={"msg": HexStr(28), "name": Choice(*NADSB)},
+@harness(("C13", "C14"), inputs={"msg": HexStr(28), "name": Choice(*NADSB)},
          functions=[A + n for n in NADSB], body_of=[A + n for n in NADSB])
 def tc31_field_body(msg, name):
     assert outcome(getattr(ADSB, name), msg) == outcome(getattr(adsb_spec, name), msg), \
         "version / NIC supplement bits == DO-260B positions; RuntimeError for other type codes"
 
 
-@harness(("C13", "C14", "C17"), inputs={"msg": HexStr(28)}, functions=[A + "nuc_p"], body_of=[A + "nuc_p"])
+@harness(("C13", "C14"), inputs={"msg": HexStr(28)}, functions=[A + "nuc_p"], body_of=[A + "nuc_p"])
 def nuc_p_body(msg):
     tc = F.tc_of(F.hexbits(msg))
     o = outcome(ADSB.nuc_p, msg)
@@ -94,7 +94,7 @@ def nuc_p_body(msg):
         assert o == ("raise", "RuntimeError"), "nuc_p rejects non-position type codes (incl. TC19)"
 
 
-@harness(("C13", "C14", "C17"), inputs={"msg": HexStr(28), "nics": Choice(0, 1)}, functions=[A + "nic_v1"],
+@harness(("C13", "C14"), inputs={"msg": HexStr(28), "nics": Choice(0, 1)}, functions=[A + "nic_v1"],
          body_of=[A + "nic_v1"])
 def nic_v1_body(msg, nics):
     tc = F.tc_of(F.hexbits(msg))
@@ -107,7 +107,7 @@ def nic_v1_body(msg, nics):
         assert o == ("raise", "RuntimeError"), "nic_v1 rejects non-position type codes (incl. TC19)"
 
 
-@harness(("C13", "C14", "C17"), inputs={"msg": HexStr(28), "nica": Choice(0, 1), "nicbc": Choice(0, 1)},
+@harness(("C13", "C14"), inputs={"msg": HexStr(28), "nica": Choice(0, 1), "nicbc": Choice(0, 1)},
          functions=[A + "nic_v2"], body_of=[A + "nic_v2"])
 def nic_v2_body(msg, nica, nicbc):
     tc = F.tc_of(F.hexbits(msg))
@@ -124,7 +124,7 @@ def nic_v2_body(msg, nica, nicbc):
         assert o == ("raise", "RuntimeError"), "nic_v2 rejects non-position type codes (incl. TC19)"
 
 
-@harness(("C13", "C14", "C17"), inputs={"msg": HexStr(28)}, functions=[A + "nuc_v", A + "nac_v"],
+@harness(("C13", "C14"), inputs={"msg": HexStr(28)}, functions=[A + "nuc_v", A + "nac_v"],
          body_of=[A + "nuc_v", A + "nac_v"])
 def nuc_v_nac_v_body(msg):
     s = outcome(adsb_spec.nuc_v_category, msg)
@@ -137,7 +137,7 @@ def nuc_v_nac_v_body(msg):
             "NUCv / NACv == ME bits 11-13, total on all 8 values"
 
 
-@harness(("C13", "C14", "C17"), inputs={"msg": HexStr(28)}, functions=[A + "nac_p"], body_of=[A + "nac_p"])
+@harness(("C13", "C14"), inputs={"msg": HexStr(28)}, functions=[A + "nac_p"], body_of=[A + "nac_p"])
 def nac_p_body(msg):
     s = outcome(adsb_spec.nac_p_category, msg)
     o = outcome(ADSB.nac_p, msg)
@@ -147,7 +147,7 @@ def nac_p_body(msg):
         assert o[0] == "ret" and o[1][0] == s[1], "NACp == ME bits 40-43 (TC29) / 45-48 (TC31), total on all 16 values"
 
 
-@harness(("C13", "C14", "C17"), inputs={"msg": HexStr(28), "ver": Choice(None, 0, 1, 2)}, functions=[A + "sil"],
+@harness(("C13", "C14"), inputs={"msg": HexStr(28), "ver": Choice(None, 0, 1, 2)}, functions=[A + "sil"],
          body_of=[A + "sil"])
 def sil_body(msg, ver):
     s = outcome(adsb_spec.sil_category, msg)
